@@ -45,10 +45,13 @@ CLAIMED = {
              "frames_prefix). Tie: the real xcm_tp_tcp.c and xcm_tp_tls.c, #included unmodified over a scripted lower "
              "layer (ASan+UBSan), produce line by line the model's rc/errno/payload/8 counters/buffer state/bytes handed "
              "down on generated histories; an independent delivery monitor checks the implementation's output alone. "
-             "ux/uxf: C01_ux_exact_delivery over the kernel's record queue (K-seqpacket), tied by unit_ux on the real xcm_tp_ux.c. utls: see level_note.",
+             "ux/uxf: C01_ux_exact_delivery over the kernel's record queue (K-seqpacket), tied by unit_ux on the real xcm_tp_ux.c. utls: a connection "
+             "keeps exactly one UX or TLS sub-connection and hands every data-path call to it unchanged (C01_utls_pure_delegation, "
+             "C08_utls_connect_balanced on the Utls model, tied by unit_utls on the real xcm_tp_utls.c). The TLS byte stream below the tls "
+             "transport (C02btls theorems, unit_btls) and the blocking wrappers of xcm.c (C03 blocking theorems, unit_api) are re-checked here.",
         note="Proof covers tcp and tls framing relative to the byte-stream contract of the layer below (FIFO, sticky "
-             "failure = C02/C06 of btcp/btls). ux/uxf relative to K-seqpacket. Not yet inside the Lean model: UTLS "
-             "delegation and the blocking wrappers of xcm.c (they are sequences of the modelled non-blocking steps). "
+             "failure = C02/C06 of btcp/btls). ux/uxf relative to K-seqpacket. The composition tls-over-btls and utls-over-ux/tls is by "
+             "these interfaces (each layer proved against the contract of the one below), not one end-to-end theorem. "
              "Correspondence is sampled differential testing. Axioms: propext, Classical.choice, Quot.sound.",
         technique="Lean 4 invariant proof over unbounded histories + differential correspondence on the real framing code",
         ref="DESIGN.md §5 C01"),
@@ -112,8 +115,11 @@ CLAIMED = {
              "transports' own paths are covered by sys_life: every resource-creating system call of a full scenario on all seven "
              "transports fails in turn (exhaustive over the call index), with descriptor ledger, stray-close detection, file and heap "
              "checks, plus fork + xcm_cleanup and control-client scenarios.",
-        note="Proved: the core ladders relative to the transport contract of xcm_tp.h. The transports' internal ladders (btcp, btls, utls, "
-             "ux, tconnect, ctl, dns) are exercised exhaustively over single failures by sys_life on the real code, not proved; double "
+        note="Proved: the core ladders relative to the transport contract of xcm_tp.h, and the ladders of xcm_tp_utls.c over its two "
+             "sub-sockets (C08_utls_init/connect/server/accept/close_balanced: for every answer of the sub-transports the contract 'close "
+             "what holds resources, only destroy what failed, never use a dead socket' is kept and a failed call holds nothing; unit_utls). "
+             "The other transports' internal ladders (btcp, btls, ux, tconnect, ctl, dns) are exercised exhaustively over single failures "
+             "by sys_life on the real code, not proved; double "
              "failures and malloc failure are outside (the library aborts on memory exhaustion by design). Axioms: propext, Classical.choice, Quot.sound.",
         technique="Lean 4 proofs over all failure scripts of the xcm.c ladders + differential correspondence + exhaustive single-fault injection on the real library",
         ref="DESIGN.md §5 C08"),
@@ -352,8 +358,10 @@ CLAIMED = {
              "two applications following the documented protocol to the letter on all seven transports while send()/recv() "
              "below XCM and OpenSSL return EAGAIN/short counts at random, with a stall watchdog; the blocking forms in threads.",
         note="proof-partial: (1) liveness over real time needs K-epoll and K-progress (assumptions) and is measured by sys_loop "
-             "(watchdog 4 s / 40 s), not proved; (2) the composition of the per-layer invariants into one end-to-end theorem "
-             "(Link-level 'every accepted message is eventually delivered') is not mechanised; (3) btls: the per-layer invariant is proved on the conn_update model "
+             "(watchdog 4 s / 40 s), not proved; (2) the per-layer invariants are composed along the tcp stack for the pending-flush wake-up "
+             "(C04_tcp_stack_wakeup: framing + btcp + xpoll: buffered message and writable kernel socket => readable descriptor) and along "
+             "the tls stack down to a source of wake-up (C04_tls_stack_has_source); the Link-level statement 'every accepted message is "
+             "eventually delivered' over real time is not mechanised; (3) btls: the per-layer invariant is proved on the conn_update model "
              "(C04_btls_handshake_watched, C04_btls_waiter_has_source, C04_btls_retained_output_watched, C04_btls_terminal_rings, "
              "C04_btls_pending_rings) and xcm_tp.c's re-evaluation after every call on the Tp model (C04_registrations_refreshed); "
              "the resolver's own descriptors are covered by sys_loop only.",
